@@ -20,6 +20,7 @@ from __future__ import annotations
 
 from typing import Any, Dict, List, Optional
 
+import gentie
 import ih5lib
 import vlib
 
@@ -704,6 +705,9 @@ def run(ctx: vlib.Ctx):
                        "smallest_disagreement": d0, "count": len(disagreements)}, found_input=False)
     elif disagreements:
         ctx.notes.append(f"{len(disagreements)} model/impl disagreements, kinds: {cov['disagreement_kinds']}")
+    # generated tie: IH5Node._parent_path/_rel_path/_abs_path are re-translated from the current source and
+    # their path laws proved on the translated text (coq/Gen/Equiv_ovpaths.v)
+    gentie.report(ctx)
 
 
 def _hist(it):
